@@ -1516,23 +1516,48 @@ fn gen_c08_close_then_silence(r: &mut Prng, _i: u64, _t: Tier) -> Plan {
     let x = r.below(2);
     let span = *r.pick(&[12usize, 40, 120, 400]);
     let at = r.below(span) as u64;
-    let kind = if r.chance(1, 2) { FaultKind::DropMux { ep: 1 - x } } else { FaultKind::PeerClose { to: x } };
+    // (or what reaches it is a message that is not a frame: the connection ends there and then,
+    // whatever the peer does or does not do afterwards)
+    let kind = match r.below(5) {
+        0 | 1 => FaultKind::DropMux { ep: 1 - x },
+        2 | 3 => FaultKind::PeerClose { to: x },
+        _ => FaultKind::Garbage { to: x, kind: r.below(6) as u8 },
+    };
     p.faults.push(Fault { at, kind });
     p.faults.push(Fault { at: at + r.below(40) as u64, kind: FaultKind::Cut { from: 1 - x, sink_err: false, src: 3, drop_inflight: false } });
     if r.chance(2, 3) {
         p.link.ws_client = (x + 1) as u8;
     }
+    // a third of the runs: the endpoint that is about to hear the Close has itself dropped its handle
+    // a moment before, with a backlog on a slow link - the peer's Close reaches it while it is still
+    // flushing its queue
+    if r.chance(1, 3) {
+        p.link.window = 1 + r.below(2);
+        p.link.latency_ms = *r.pick(&[5u64, 20, 50]);
+        p.link.bp_flush = r.chance(1, 2);
+        let n = 40 + r.below(80);
+        let items = (0..n).map(|_| DgItem { flow: r.next() as u32, hlen: r.below(10), port: r.next() as u16, len: r.below(40), yields: 0 }).collect();
+        p.dg_tx.push(DgTx { from: x, items });
+        p.dg_rx.retain(|d| d.ep != 1 - x);
+        p.dg_rx.push(DgRx { ep: 1 - x, pace: vec![0], take: None });
+        let t0 = 150 + r.below(300) as u64;
+        let t1 = t0 + r.below(60) as u64;
+        p.faults.clear();
+        p.faults.push(Fault { at: t0, kind: FaultKind::DropMux { ep: x } });
+        p.faults.push(Fault { at: t1, kind: if r.chance(1, 2) { FaultKind::DropMux { ep: 1 - x } } else { FaultKind::PeerClose { to: x } } });
+        p.faults.push(Fault { at: t1 + r.below(60) as u64, kind: FaultKind::Cut { from: 1 - x, sink_err: false, src: 3, drop_inflight: false } });
+    }
     p
 }
 fn x_c08_close_then_silence(r: &DuoRun, wm: &WireModel, ei: &EndInfo, o: &mut Outcome) {
-    let closer = r.plan.faults.iter().find_map(|f| match f.kind {
-        FaultKind::DropMux { ep } => Some(ep.min(1)),
-        FaultKind::PeerClose { to } => Some(1 - to.min(1)),
-        _ => None,
-    });
-    let in_space = r.plan.faults.len() == 2
-        && closer.is_some()
-        && r.plan.faults.iter().any(|f| matches!(f.kind, FaultKind::Cut { from, sink_err: false, src: 3, drop_inflight: false } if Some(from.min(1)) == closer))
+    // the silent direction is the one from the closing side: exactly one silent cut, and the
+    // endpoint at its receiving end is sent a Close (the peer drops its handle, or a forged one);
+    // that endpoint may have dropped its own handle before
+    let cuts: Vec<usize> = r.plan.faults.iter().filter_map(|f| if let FaultKind::Cut { from, sink_err: false, src: 3, drop_inflight: false } = f.kind { Some(from.min(1)) } else { None }).collect();
+    let closer = if cuts.len() == 1 { Some(cuts[0]) } else { None };
+    let in_space = closer.is_some()
+        && r.plan.faults.iter().all(|f| matches!(f.kind, FaultKind::Cut { sink_err: false, src: 3, drop_inflight: false, .. } | FaultKind::DropMux { .. } | FaultKind::PeerClose { .. } | FaultKind::Garbage { .. }))
+        && r.plan.faults.iter().any(|f| matches!(f.kind, FaultKind::DropMux { ep } if Some(ep.min(1)) == closer) || matches!(f.kind, FaultKind::PeerClose { to } if Some(1 - to.min(1)) == closer) || matches!(f.kind, FaultKind::Garbage { to, .. } if Some(1 - to.min(1)) == closer))
         && r.plan.eps.iter().all(|e| e.keepalive_ms[0] == 0);
     if !in_space {
         o.violations.clear();
@@ -1542,16 +1567,27 @@ fn x_c08_close_then_silence(r: &DuoRun, wm: &WireModel, ei: &EndInfo, o: &mut Ou
     let cut = r.fired.iter().find(|f| f.0.starts_with("cut:")).map(|f| f.1);
     // the Close itself was swallowed by the silence (or never sent): a dead link without
     // keepalive, nobody can know that the connection has ended
-    if cut.is_some() && wm.close_consumed[x].is_none() {
+    let garbage = r.plan.faults.iter().any(|f| matches!(f.kind, FaultKind::Garbage { .. }));
+    let heard = if garbage { wm.garbage_consumed[x].is_some() } else { wm.close_consumed[x].is_some() };
+    if cut.is_some() && !heard {
         o.violations.clear();
         o.probe("close-lost-in-the-silence", 1);
         return;
     }
     x_c08(r, wm, ei, o);
+    if cut.is_some() && garbage {
+        o.probe("invalid-frame-then-silence", 1);
+    }
     if cut.is_some() && wm.close_consumed[x].is_some() {
         o.probe("close-then-silence", 1);
         if r.plan.link.ws_client as usize == x + 1 {
             o.probe("close-then-silence-at-the-websocket-client", 1);
+        }
+        let led = r.led.borrow();
+        if let (Some(d), Some(c)) = (led.mux_dropped[x], wm.close_consumed[x]) {
+            if d < c && led.task_end[x].as_ref().is_none_or(|e| e.0 > c) {
+                o.probe("peer-close-while-flushing-after-own-drop", 1);
+            }
         }
     }
 }
@@ -1569,10 +1605,10 @@ pub fn c08() -> Check {
             fam("backlog", 100_000, 2_000_000, gen_c08_backlog, OracleCfg::default(), Some(x_c08), nt_c08, "the endpoint whose transport fails (sink error with a live or silent source, invalid frame, source error) runs no acceptor: its accept backlog (1-2 slots) is full and further Connect frames of the peer are in flight or buffered when the failure hits; its parked reader, get_datagram and open calls must still resolve and its task must return."),
             fam("drop-with-backlog", 30_000, 400_000, gen_c08_backlog_drop, OracleCfg::default(), Some(x_c08_backlog_drop), nt_c08, "the chaos workload plus a burst of 40-120 datagrams at the endpoint(s) about to drop their Multiplexor handle, on a link with room for 1-2 messages that takes 5-50 ms per message (back-pressure in poll_ready or, like tungstenite, in poll_flush), keepalive nowhere / everywhere / only at the endpoint that keeps its handle (interval 20-40 message times); one handle is dropped, or both within a few rounds. Judged: the general clauses (every task returns, nothing pending at quiescence) and, when one handle is dropped, the flush clauses: every datagram, byte, Finish and Reset accepted before the drop is on the wire before Close."),
             fam("drop-then-sink-failure", 30_000, 400_000, gen_c08_drop_then_sink_failure, OracleCfg::default(), Some(x_c08_drop_then_sink_failure), nt_c08, "the drop-with-backlog workload with one handle dropped; within the next 0-120 scheduling rounds - typically while the queue is still being flushed - that endpoint's own Sink starts failing (outgoing direction broken; the peer's direction unchanged, silent or failing as well; messages in flight lost or not), keepalive nowhere / everywhere / only at the peer. Judged by the general clauses: the failing endpoint's task returns, the streams its application still holds and every pending call come to an end at quiescence."),
-            fam("close-then-silence", 40_000, 600_000, gen_c08_close_then_silence, OracleCfg::default(), Some(x_c08_close_then_silence), nt_c08, "the chaos workload without keepalive; one endpoint's handle is dropped (or a forged Close arrives at the other) and 0-40 scheduling rounds later the direction from the closing side goes silent - nothing fails, nothing more arrives, not even the end of the transport a WebSocket client waits for after the closing handshake. The endpoint that has consumed the peer's Close is judged by the general clauses: its task returns and nothing is pending at quiescence. Runs in which the silence swallowed the Close itself are not judged (nobody can know)."),
+            fam("close-then-silence", 40_000, 600_000, gen_c08_close_then_silence, OracleCfg::default(), Some(x_c08_close_then_silence), nt_c08, "the chaos workload without keepalive; one endpoint's handle is dropped (or a forged Close, or a message that is not a frame, arrives at the other; in a third of the runs that other endpoint has itself dropped its handle a moment before, with a backlog on a slow link) and 0-40 scheduling rounds later the direction from the closing side goes silent - nothing fails, nothing more arrives, not even the end of the transport a WebSocket client waits for after the closing handshake. The endpoint that has consumed the peer's Close is judged by the general clauses: its task returns and nothing is pending at quiescence. Runs in which the silence swallowed the Close itself are not judged (nobody can know)."),
             fam("keepalive-expiry", 40_000, 600_000, gen_c08_keepalive, OracleCfg::default(), Some(x_c08_keepalive), nt_c08, "the chaos workload with keepalive on at one or both endpoints (interval 200-1000 ms, timeout 1-2 intervals) on a link that goes silent at a seeded scheduling round: one or both directions swallow what is sent from then on, no operation of the transport fails. Every endpoint with keepalive on must end (its pings or the pongs to them are lost), and from then on the general clauses apply: its task returned, no call pending at quiescence, reads drain then end, writes fail. Non-trivial as in chaos."),
         ],
-        vec!["late-call-after-end", "end-with-pending-operations", "end-while-writer-parked", "end-while-open-pending", "end-while-bind-pending", "drop-with-queued-frames", "silent-link-under-keepalive", "ended-by-keepalive-expiry", "silent-link-around-orderly-end", "drop-with-long-backlog", "both-handles-dropped-with-backlog", "drop-with-long-backlog-under-keepalive", "drop-with-long-backlog-timeout-without-interval", "sink-failure-during-flush", "sink-failure-during-flush-without-keepalive", "close-then-silence", "close-then-silence-at-the-websocket-client", "fault:cut", "fault:peer-close", "fault:garbage", "fault:drop-mux"],
+        vec!["late-call-after-end", "end-with-pending-operations", "end-while-writer-parked", "end-while-open-pending", "end-while-bind-pending", "drop-with-queued-frames", "silent-link-under-keepalive", "ended-by-keepalive-expiry", "silent-link-around-orderly-end", "drop-with-long-backlog", "both-handles-dropped-with-backlog", "drop-with-long-backlog-under-keepalive", "drop-with-long-backlog-timeout-without-interval", "sink-failure-during-flush", "sink-failure-during-flush-without-keepalive", "close-then-silence", "close-then-silence-at-the-websocket-client", "peer-close-while-flushing-after-own-drop", "invalid-frame-then-silence", "fault:cut", "fault:peer-close", "fault:garbage", "fault:drop-mux"],
     )
 }
 use crate::link::{Stage, Wire};
@@ -1618,6 +1654,8 @@ fn c10_base(r: &mut Prng) -> C10Plan {
         bystander_bytes: 20 + r.below(60),
         garbage: if r.chance(1, 5) { Some(r.below(6) as u8) } else { None },
         victim_shutdown: r.chance(1, 3),
+        flood: 0,
+        silent_after_garbage: r.chance(1, 2),
     }
 }
 impl Family for C10Family {
@@ -1632,6 +1670,17 @@ impl Family for C10Family {
         let mut r = Prng::new(seed);
         let mut p = c10_base(&mut r);
         let alpha = (N_OPS as u64) * (N_IDS as u64);
+        if self.name == "connect-burst" {
+            // the application accepts the set-up's two streams and no more; the peer opens a burst
+            p.ep.stream_buf = *r.pick(&[1usize, 2, 4]);
+            p.flood = *r.pick(&[1usize, p.ep.stream_buf, p.ep.stream_buf + 1, p.ep.stream_buf + 2, p.ep.stream_buf + 8]);
+            p.victim_shutdown = false;
+            p.garbage = None;
+            for _ in 0..r.below(4) {
+                p.seqn.push(FOp { op: r.below(N_OPS as usize) as u8, id: r.below(N_IDS as usize) as u8, yields: r.below(5) });
+            }
+            return (serde_json::to_value(p).expect("plan"), seed);
+        }
         if self.enumerate {
             // index -> single frame (first `alpha` indices) or ordered pair, cyclically
             let k = index % (alpha + alpha * alpha);
@@ -1659,6 +1708,9 @@ impl Family for C10Family {
         run_c10(&plan, sched, record)
     }
     fn rule(&self) -> &'static str {
+        if self.name == "connect-burst" {
+            return "the same endpoint, but its application accepts the two streams of the set-up and then no more (the penguin client never accepts any); the peer opens 1 ... stream_buffer_size + 8 further streams at once (stream_buffer_size 1, 2, 4), then a few random frames; bystander traffic and the liveness probe as before. Up to stream_buffer_size unaccepted streams the endpoint must keep serving; from the next one on the listed known finding applies (the task waits in the hand-over and reads nothing more).";
+        }
         if self.enumerate {
             "one real endpoint, a raw peer speaking the reference codec; flows in every slot state are set up by conforming exchanges (established bystander with checked traffic both ways, established victim that is never read, endpoint-requested established flow, pending Connect, pending Bind, two unknown ids, id 0); then ALL single frames and ALL ordered pairs over {Connect, Ack(0/1/max), Reset, Finish, Push(0/1/300 B), Bind(1/3), Datagram} x those ids are enumerated by run index, under seeded schedules; followed by a liveness probe (fresh Connect acknowledged, bystander moves more data)."
         } else {
@@ -1675,8 +1727,8 @@ pub fn c10() -> Check {
         property: "C10",
         engine: "muxsim",
         level: "fault_enumeration",
-        families: vec![Box::new(C10Family { name: "pairs", quick: 9312 * 4, thorough: 9312 * 200, enumerate: true }), Box::new(C10Family { name: "sequences", quick: 150_000, thorough: 3_000_000, enumerate: false })],
-        required_probes: vec!["window-overrun-by-peer", "reset-required-and-sent", "liveness-probe-run", "garbage-ended-connection", "undetermined-reaction-recorded"],
+        families: vec![Box::new(C10Family { name: "pairs", quick: 9312 * 4, thorough: 9312 * 200, enumerate: true }), Box::new(C10Family { name: "sequences", quick: 150_000, thorough: 3_000_000, enumerate: false }), Box::new(C10Family { name: "connect-burst", quick: 20_000, thorough: 400_000, enumerate: false })],
+        required_probes: vec!["window-overrun-by-peer", "reset-required-and-sent", "liveness-probe-run", "garbage-ended-connection", "undetermined-reaction-recorded", "connect-burst-within-the-accept-backlog", "connect-burst-beyond-the-accept-backlog"],
         assumptions: vec!["only reactions PROTOCOL.md or the statement fix are judged (Reset for Ack/Finish/Push on unknown flows, never Reset for Reset, Reset of only the offending flow on overrun, Reset for Connect with id 0 / in use, Reset for Bind when disabled); reactions left open taint that flow id and are recorded, not judged", "the in-memory link implements tokio-tungstenite's observable contract"],
         real: c.real,
         stub: vec!["the peer (scripted raw peer encoding with the reference codec)", "WebSocket transport (SimWs)", "applications (scripted)", "task scheduler (seeded executor)"],
